@@ -494,7 +494,7 @@ func init() {
 	run.Register(run.Prop[C15Case]{
 		ID:    "C15",
 		Level: "exploration",
-		Rule: "case = ordered pair of persisted versions (as C07: derived / unrelated / same; bf 2-64) re-opened from their roots on a recording store WITHOUT cache, plus an enumerated family of large trees (300-3000 int keys quick, up to 60000 thorough; bf 16 and 4) whose new version differs in 1-5 keys. Oracle: the number of DISTINCT names passed to Persist.Load during DiffIter, and during DiffLinks, is <= 2D+2 where D = |N_old symmetric-difference N_new| computed by the reference walker; zero loads when both sides are the same version. " +
+		Rule: "case = ordered pair of persisted versions (as C07: derived / unrelated / same; bf 2-64) re-opened from their roots on a recording store WITHOUT cache, plus an enumerated family of large trees (300-3000 int keys quick, up to 60000 thorough; bf 16 and 4) whose new version differs in 1-5 keys. Further families: the new version opened through an alias handle of the same store; versions one key apart with different heights; a dense run plus one far key of a high layer (an entry-less intermediate node on one side only), both directions; diffs after an abandoned diff; lookups and cursor descents through the writer's (small) cache before the diff; a same-version diff through a turned-over one-slot cache. Oracle: the number of DISTINCT names passed to Persist.Load during DiffIter, and during DiffLinks, is <= 2D+2 where D = |N_old symmetric-difference N_new| computed by the reference walker; zero loads when both sides are the same version. " +
 			"Non-trivial = D >= 1 AND >= 10 shared nodes AND fewer nodes loaded than are shared (i.e. common subtrees were skipped); distinct by case hash",
 		Assumptions: []string{"loads are counted per API call on freshly opened trees, so nothing is served from memory"},
 		Gen:         genC15,
